@@ -177,15 +177,15 @@ type kv struct {
 
 // hdrVariant is one message shape: header multiset plus the fields the pseudo-headers are taken from.
 type hdrVariant struct {
-	Pairs                         []kv
-	Host                          string
-	CL                            int64
-	TE                            []string
-	URL                           string
+	Pairs                          []kv
+	Host                           string
+	CL                             int64
+	TE                             []string
+	URL                            string
 	Scheme, Authority, Path, Query string
-	Method, Remote                string
-	Status                        int
-	StatusLine                    string
+	Method, Remote                 string
+	Status                         int
+	StatusLine                     string
 }
 
 var hdrVariants = func() []hdrVariant {
